@@ -404,6 +404,107 @@ def gap_cases():
     return cases
 
 
+# ---------------------------------------------------------------- aliasing: equal values must not share storage
+def _int_paths(v):
+    """Ways to make a key hold the decimal of integer v (value-producing paths of the server)."""
+    d = b"%d" % v
+    ps = [
+        ("incrby", lambda k: [[b"incrby", k, d]]),
+        ("decrby", lambda k: [[b"decrby", k, b"%d" % -v]]),
+        ("set+incr", lambda k: [[b"set", k, b"%d" % (v - 1)], [b"incr", k]]),
+        ("set+decr", lambda k: [[b"set", k, b"%d" % (v + 1)], [b"decr", k]]),
+        ("incrby2", lambda k: [[b"incrby", k, b"%d" % (v - 3)], [b"incrby", k, b"3"]]),
+        ("set", lambda k: [[b"set", k, d]]),
+        ("append0", lambda k: [[b"append", k, d]]),
+        ("setrange0", lambda k: [[b"setrange", k, b"0", d]]),
+        ("rename", lambda k: [[b"incrby", b"tmp" + k, d], [b"rename", b"tmp" + k, k]]),
+    ]
+    if 0 < v <= 3:
+        ps.insert(0, ("incr*", lambda k: [[b"incr", k]] * v))
+    if -3 <= v < 0:
+        ps.insert(0, ("decr*", lambda k: [[b"decr", k]] * (-v)))
+    return ps
+
+
+def _lit_paths(v):
+    ps = [
+        ("set", lambda k: [[b"set", k, v]]),
+        ("mset", lambda k: [[b"mset", k, v]]),
+        ("setget", lambda k: [[b"set", k, b"zz"], [b"set", k, v, b"GET"]]),
+        ("setnx", lambda k: [[b"setnx", k, v]]),
+        ("setex", lambda k: [[b"setex", k, b"1000", v]]),
+        ("append0", lambda k: [[b"append", k, v]]),
+        ("rename", lambda k: [[b"set", b"tmp" + k, v], [b"rename", b"tmp" + k, k]]),
+    ]
+    if v:
+        ps.append(("setrange0", lambda k: [[b"setrange", k, b"0", v]]))
+        ps.append(("append2", lambda k: [[b"set", k, v[:1]], [b"append", k, v[1:]]]))
+    return ps
+
+
+def aliasing_cases():
+    """Keys a, b (and a bystander c) are brought to the SAME value through every value-producing
+    path -- counters reaching equal integers (0, small, 4-5 digits, negative) by INCR / DECR /
+    INCRBY / DECRBY in several ways, equal literals by SET / MSET / SET GET / SETNX / SETEX, values
+    created by APPEND / SETRANGE / RENAME, equal INCRBYFLOAT results -- then ONE of them is
+    changed by an in-place mutator (APPEND of 1..8 bytes, SETRANGE inside / at / past the end, INCR),
+    every key is read, then the OTHER is changed differently, every key is read again, and once
+    more the first; dumps after each phase.  Equal values must behave as independent values.
+    (GETSET and COPY are not commands of this server.)"""
+    cases = []
+    n = 0
+
+    def build(name, mk_a, mk_b, mk_c, ln, numeric):
+        nonlocal n
+        schemes = [
+            [("a", [b"append", None, b"0"]), ("b", [b"append", None, b"5"]), ("a", [b"append", None, b"77"])],
+            [("a", [b"append", None, b"12345678"]), ("b", [b"append", None, b"x"]), ("a", [b"append", None, b"yz"])],
+            [("a", [b"setrange", None, b"0", b"Z"]), ("b", [b"setrange", None, b"0", b"Y"]), ("a", [b"append", None, b"1"])],
+            [("a", [b"setrange", None, b"%d" % ln, b"E"]), ("b", [b"setrange", None, b"%d" % ln, b"F"]),
+             ("a", [b"setrange", None, b"%d" % (ln + 1), b"G"])],
+            [("a", [b"setrange", None, b"%d" % (ln + 1), b"G"]), ("b", [b"setrange", None, b"%d" % (ln + 1), b"H"]),
+             ("a", [b"append", None, b"3"])],
+        ]
+        if numeric:
+            schemes.append([("a", [b"append", None, b"0"]), ("b", [b"incr", None]), ("b", [b"append", None, b"5"]),
+                            ("a", [b"incr", None]), ("b", [b"decrby", None, b"2"])])
+        for si, sch in enumerate(schemes):
+            for first in ("a", "b"):            # both orders: which of the two equal keys is touched first
+                c = Case("c01a_%s_%d" % (name, n))
+                n += 1
+                for k, mk in ((b"a", mk_a), (b"b", mk_b), (b"c", mk_c)):
+                    for a in mk(k):
+                        c.cmd(a)
+                c.cmd([b"mget", b"a", b"b", b"c"])
+                for who, cmd in sch:
+                    key = (b"a" if who == "a" else b"b") if first == "a" else (b"b" if who == "a" else b"a")
+                    c.cmd([cmd[0], key] + cmd[2:])
+                    c.cmd([b"mget", b"a", b"b", b"c"])
+                    c.cmd([b"strlen", b"c"])
+                    c.dump()
+                cases.append(c)
+
+    for v in (0, 1, 2, 7, 10, 42, 999, 1000, 9999, 10000, 12345, -1, -7, -100):
+        ps = _int_paths(v)
+        ln = len(b"%d" % v)
+        # a and b by the same path, and by every pair of different paths among the first five
+        pairs = [(i, i) for i in range(min(3, len(ps)))] + [(i, j) for i in range(min(5, len(ps))) for j in range(i + 1, min(6, len(ps)))]
+        for i, j in pairs:
+            build("int%d_%s_%s" % (v, ps[i][0], ps[j][0]), ps[i][1], ps[j][1], ps[(j + 1) % len(ps)][1], ln, True)
+    for v in (b"", b"x", b"hello", b"10", b"x\r\ny"):
+        ps = _lit_paths(v)
+        pairs = [(0, 0), (0, 1)] + [(i, (i + 1) % len(ps)) for i in range(1, len(ps))]
+        for i, j in pairs:
+            build("lit%d_%s_%s" % (len(v), ps[i][0], ps[j][0]), ps[i][1], ps[j][1], ps[(j + 1) % len(ps)][1], len(v), False)
+    for f, ln in ((b"1.5", 3), (b"10.25", 5), (b"-0.5", 4)):
+        one = lambda k, f=f: [[b"incrbyfloat", k, f]]
+        two = lambda k, f=f: [[b"incrbyfloat", k, b"0.5"], [b"incrbyfloat", k, b"%s" % (b"1" if f == b"1.5" else b"9.75" if f == b"10.25" else b"-1")]]
+        lit = lambda k, f=f: [[b"set", k, f]]
+        build("flt_%d" % ln, one, one, lit, ln, False)
+        build("flt2_%d" % ln, one, two, lit, ln, False)
+    return cases
+
+
 # ---------------------------------------------------------------- malformed arity, unknown commands
 def malformed_cases(seed):
     r = random.Random(seed * 7919 + 1)
